@@ -88,6 +88,7 @@ SUMMARY = {
 
 def main():
   rows = []
+  own_final = any_final = own_first = any_first = n_first = 0
   for sid in sorted(os.listdir(os.path.join(HERE, "seeded"))):
       m = os.path.join(HERE, "seeded", sid, "meta.json")
       if not os.path.exists(m):
@@ -98,11 +99,23 @@ def main():
       fired = sorted(r["fired"])
       others = [f for f in fired if f != own]
       inc = sorted(r["inconclusive"])
-      rows.append((sid, SUMMARY.get(sid, ""), "yes" if own in fired else "**NO**", ", ".join(others) or "-", ", ".join(inc) or "-"))
-  print("| seeded change | what it does | caught by its own check (quick tier) | also fired | inconclusive |")
-  print("|---|---|---|---|---|")
+      first = d.get("first_measurement_before_strengthening")
+      if first:
+          n_first += 1
+          own_first += first["caught_by_own_property_check"]
+          any_first += first["caught_by_any_check"]
+          fcol = ("own check" if first["caught_by_own_property_check"] else ("only " + ", ".join(first["fired"]) if first["fired"] else "**missed by all**"))
+      else:
+          fcol = ""
+      own_final += own in fired
+      any_final += bool(fired)
+      rows.append((sid, SUMMARY.get(sid, ""), fcol, "yes" if own in fired else "**NO**", ", ".join(others) or "-", ", ".join(inc) or "-"))
+  print("| seeded change | what it does | first measurement (round 4: machinery as committed before the change was looked at) | final machinery: caught by its own check (quick tier) | also fired | inconclusive |")
+  print("|---|---|---|---|---|---|")
   for r in rows:
-      print("| %s | %s | %s | %s | %s |" % r)
+      print("| %s | %s | %s | %s | %s | %s |" % r)
+  print()
+  print("Totals: %d changes; final machinery: own check fires on %d, some check fires on %d. First measurement (round 4, %d changes): own check %d, some check %d." % (len(rows), own_final, any_final, n_first, own_first, any_first))
 
 
 if __name__ == "__main__":
